@@ -185,6 +185,10 @@ def apply(st, op, params, check=True):
             raise ValueError(op)
     except AssertionError as e:
         raise Disabled(str(e))
+    except Disabled:
+        raise
+    except Exception as e:  # noqa: BLE001 - a Model operation that raises on valid data is an observation, not a harness failure
+        return [("op_raises", "%s raised %s: %s" % (op, type(e).__name__, e))]
     return check_state(st, params) if check else []
 
 
